@@ -1,5 +1,7 @@
 import LachesisVerif.Model.Orderer
 import LachesisVerif.Props.C11
+import LachesisVerif.Proofs.ElectionInv
+import LachesisVerif.Proofs.ElectionL4
 /-!
 # C10 — Consensus output matches an independent reference implementation
 
@@ -171,6 +173,105 @@ theorem L1_quorums_share_honest (ws : List Nat) (m₁ m₂ fk : List Bool)
         cases i with
         | zero => simp [C11.mand] at hi ⊢; exact hi.2
         | succ j => simp [C11.mand] at hi ⊢; exact ih bs j (by simpa using hi)
+
+/-! ### (1) invariants of the election model over any run of `processRoot` from `reset` -/
+section ModelInvariants
+open ElectionProofs
+
+/-- In every state reachable from `reset vals ftd` by successful `processRoot` calls (any roots, any
+    per-call oracles whose `frameRoots` answers satisfy the slot predicate `P frame validator id`):
+    every stored yes-vote names a root of frame `ftd` whose slot validator is the subject; every entry
+    of `decidedRoots` is marked decided, is the stored vote of a root of frame ≥ `ftd + 2`, and names
+    such a root when it is "yes"; no subject is decided twice; `frameToDecide` and the validators
+    never change. -/
+theorem election_invariants (P : Nat → Nat → Nat → Prop) (vals : Vals) (ftd : Nat)
+    (hids : (vals.sorted.map (·.1)).Nodup) (hf : ftd < 4294967296) (el : Election)
+    (hr : Reach P vals ftd el) : Inv P el ∧ el.frameToDecide = ftd ∧ el.vals = vals :=
+  reach_inv P vals ftd hids hf el hr
+
+/-- decisions are only written in rounds ≥ 2: a root of frame ≤ `frameToDecide + 1` leaves
+    `decidedRoots` unchanged -/
+theorem election_no_early_decision (observe : Nat → Nat → Bool) (frameRoots : Nat → List Root)
+    (el : Election) (nr : Root) (el' : Election) (res : Option (Nat × Nat))
+    (hf : el.frameToDecide + 1 < 4294967296) (hnr : nr.frame ≤ el.frameToDecide + 1)
+    (h : processRoot observe frameRoots el nr = .ok (el', res)) : el'.decidedRoots = el.decidedRoots :=
+  processRoot_no_early_decision observe frameRoots el nr el' res hf hnr h
+
+/-- whatever a reachable election returns is `(frameToDecide, a)` where `a` is a root of that frame
+    whose slot validator belongs to the validator set -/
+theorem election_atropos_is_slot_root (P : Nat → Nat → Nat → Prop) (vals : Vals) (ftd : Nat)
+    (hids : (vals.sorted.map (·.1)).Nodup) (hf : ftd < 4294967296) (el el' : Election)
+    (hr : Reach P vals ftd el) (observe : Nat → Nat → Bool) (frameRoots : Nat → List Root) (nr : Root)
+    (hs : SoundRoots P frameRoots) (hn : nr.frame < 4294967296) (f a : Nat)
+    (h : processRoot observe frameRoots el nr = .ok (el', some (f, a))) :
+    f = ftd ∧ ∃ v w, (v, w) ∈ vals.sorted ∧ P ftd v a :=
+  reach_atropos P vals ftd hids hf el el' hr observe frameRoots nr hs hn f a h
+
+/-- non-vacuity: one validator, roots 10·f in frame f, everything observed: the root of frame 2
+    votes yes for root 10, the root of frame 3 decides, the Atropos of frame 1 is root 10 -/
+def exVals : Vals := { sorted := [(0, 1)], total := 1 }
+def exRoots (f : Nat) : List Root := [⟨10 * f, f, 0⟩]
+def exP (f v id : Nat) : Prop := id = 10 * f ∧ v = 0
+theorem exRoots_sound : SoundRoots exP exRoots := by
+  intro f r hr
+  simp only [exRoots, List.mem_singleton] at hr
+  subst hr; exact ⟨rfl, rfl⟩
+def exEl1 : Election :=
+  { frameToDecide := 1, vals := exVals,
+    votes := [((⟨20, 2, 0⟩, 0), { decided := false, yes := true, observedRoot := 10 })] }
+theorem ex_step1 : processRoot (fun _ _ => true) exRoots (reset exVals 1) ⟨20, 2, 0⟩ = .ok (exEl1, none) := rfl
+example : ∃ el', processRoot (fun _ _ => true) exRoots exEl1 ⟨30, 3, 0⟩ = .ok (el', some (1, 10)) := ⟨_, rfl⟩
+theorem ex_reach : Reach exP exVals 1 exEl1 :=
+  Reach.step (res := none) Reach.init exRoots_sound (by decide) ex_step1
+end ModelInvariants
+
+/-! ### (2)–(4) the graph-level rules (`Spec/ElectionRules.lean`) and the lemma chain L1, L2, L4 -/
+section Graph
+open ElectionRules VecProofs
+
+/-- L1 for the graph-level definitions: if the validators that fork hold less than a third of the
+    weight, two validator sets that both reach the quorum share a validator that never forks. -/
+theorem L1_graph (N : Net) : N.L1 := N.L1_holds
+
+/-- L2: in a valid history with accepted frames and forkers below one third, two different roots of
+    one slot (same frame, same creator) are never both forkless-caused — by anything. -/
+theorem L2_one_root_per_slot (N : Net) : N.L2 := N.L2_holds
+
+/-- L4: if some root decides subject `v` at round `k`, every root of every round ≥ `k` votes the same
+    way and nobody decides the opposite. -/
+theorem L4_decision_is_final (N : Net) : N.L4 := N.L4_holds
+
+/-- hence the Atropos of a frame, as defined by the rules, is unique -/
+theorem atropos_unique (N : Net) : N.AtroposUnique := N.atroposUnique_holds
+
+/-- non-vacuity of the hypotheses `Valid`, `FramesAccepted`, `BFT` (one validator, one event) -/
+def exNet : Net := { h := [{ creator := 0, seq := 1, parents := [] }], nVals := 1, w := fun _ => 1, fr := fun _ => 1 }
+example : Valid exNet.nVals exNet.h ∧ exNet.FramesAccepted ∧ exNet.BFT := by
+  refine ⟨?_, ?_, ?_⟩
+  · exact Valid.snoc (h := []) Valid.nil
+      { parents_lt := (by intro p hp; cases hp), creator_lt := (by decide), seq_pos := (by decide),
+        seq_lt := (by decide), first := (by intro _ p hp; cases hp),
+        self := (by intro h; exact absurd h (by decide)) }
+  · intro e he
+    have : e = 0 := by simp [exNet] at he; omega
+    subst this
+    unfold Net.Allowed
+    rw [if_pos (by decide)]
+    rfl
+  · unfold Net.BFT
+    have h0 : exNet.weightOf exNet.Forker = 0 := by
+      apply Net.weightOf_zero
+      rintro v _ ⟨x, y, hne, hx, hy, _⟩
+      simp [exNet] at hx hy
+      omega
+    have h1 : exNet.total = 1 := by
+      unfold Net.total
+      rw [Net.weightOf_eq]
+      show wsum _ [0] _ = 1
+      rw [wsum_cons, wsum_nil, if_pos trivial]
+      rfl
+    rw [h0, h1]; decide
+end Graph
 
 /-! ### non-vacuity -/
 def exampleElection : Election :=
